@@ -722,7 +722,32 @@ func c08Locator(r *Run, spec c08Spec, m gts.Modifier, seq gts.Sequence) {
 		f := Failure{Oracle: "X@M denotes the regions of X each resized by M (bare modifier: whole sequence; location: itself; selector: matching features in table order)",
 			Op: line, Got: out, Want: w}
 		r.fail(f)
+		return
 	}
+	// one locator is applied to every record of a stream (cmd/gts): a second and third
+	// application of the SAME locator value must denote the same regions as the first
+	func() {
+		defer func() {
+			if e := recover(); e != nil {
+				r.fail(Failure{Oracle: "a locator can be applied again without panicking", Op: line, Got: fmt.Sprint(e)})
+			}
+		}()
+		locate, err := gts.AsLocator(s)
+		if err != nil {
+			return
+		}
+		for k := 1; k <= 3; k++ {
+			rr := locate(copySeq(seq))
+			cp := make([]gts.Region, len(rr))
+			copy(cp, rr)
+			if got := encRegs(cp); got != out {
+				r.fail(Failure{Oracle: "a locator denotes the same regions every time it is applied (application " + itoa(k) + " of the same locator value)",
+					Op: line, Got: got, Want: out})
+				return
+			}
+		}
+		r.count("locator/reapplied")
+	}()
 }
 
 // c08LocatorString: an arbitrary string: the restated kind (built from the real
